@@ -106,14 +106,24 @@ func (ip *IndexPos) loadChunk() error {
 	}
 	chunk, err := ip.Store.GetChunk(ip.curChunkID)
 	if err != nil {
-		return err
+		return notEOF(err)
 	}
 	b, err := chunk.Data()
 	if err != nil {
-		return err
+		return notEOF(err)
 	}
 	ip.curChunk = b
 	return nil
+}
+
+// notEOF makes sure that a failure to load a chunk cannot be mistaken for
+// the end of the blob by users of the io.Reader and io.ReaderAt interfaces.
+// Stores can fail with a plain io.EOF, for example when a remote hangs up.
+func notEOF(err error) error {
+	if err == io.EOF {
+		return io.ErrUnexpectedEOF
+	}
+	return err
 }
 
 // Seek implements the io.Seeker interface. Sets the offset for the next Read operation.
